@@ -50,21 +50,30 @@ CHECKS = {
                      "(polynomial identity)",
     },
     "C07": {
-        "text": "NARROW: decides non-negativity of the TTP error count "
-                "(counter starts at 0, only `+=`, each of the 13 increments "
-                "proven >= 0 under its path guards by linear entailment), "
-                "that both scratch tables are reset by fill() before any "
-                "use on every path, and exhaustiveness of rule coverage "
-                "(every streak/separation limit and the games-per-pairing "
-                "count is consumed by some error term; bye and both "
-                "consistency tests have a site).",
-        "design_ref": "DESIGN.md section 4, C07",
-        "note": "Does NOT decide 'zero iff feasible', the per-rule counts "
-                "or the declared upper bound: these quantify over the "
-                "behaviour of a streak/separation state machine on all "
-                "plans - no sound static argument in reach.",
-        "technique": "sign analysis by linear entailment under path "
-                     "guards + CFG dominance + parameter-use coverage",
+        "text": "Agreement of the TTP error counter with its documented "
+                "rules: the per-(team, day) step is normalised symbolically "
+                "for the three reachable streak states and compared with a "
+                "reference step written from rules 1-8 of the docstring on "
+                "every consistent outcome of its comparisons (decision "
+                "trees pruned by Fourier-Motzkin, ~440 cases): counter, "
+                "streak flags and lengths, and the updated cells of both "
+                "tables must coincide; the scan order, the initial state, "
+                "the closing of the running streak at the end of a column "
+                "and the final pairing summation (rules 9, 10) are decided "
+                "likewise; every increment is proven non-negative under its "
+                "guards; both scratch tables are reset before use; every "
+                "limit is consumed.",
+        "design_ref": "DESIGN.md section 4, C07 and 10.2",
+        "note": "By induction over the scan the returned value is the "
+                "documented per-rule count, hence 0 exactly for plans that "
+                "violate none of rules 1-10. Does NOT decide that the count "
+                "stays below the declared upper bound (4D-1)n-1, nor that "
+                "rules 1-10 are the right notion of feasibility.",
+        "technique": "symbolic normalisation of the loop body + case "
+                     "splitting over comparison outcomes (exact "
+                     "Fourier-Motzkin pruning) against a reference "
+                     "transition function; sign analysis by linear "
+                     "entailment; CFG dominance",
     },
     "C03": {
         "text": "NARROW: decides that the geometric component of the "
